@@ -10,14 +10,17 @@ import (
 	"net/http"
 	"net/http/httptest"
 	"os"
+	"path/filepath"
 	"sort"
 	"strings"
 	"time"
 
 	"github.com/gin-gonic/gin"
+	kitlog "github.com/go-kit/log"
 	"github.com/prometheus/client_golang/prometheus"
 	"github.com/prometheus/common/model"
 	"github.com/prometheus/prometheus/config"
+	"github.com/prometheus/prometheus/discovery"
 	"github.com/prometheus/prometheus/model/labels"
 	"github.com/prometheus/prometheus/model/relabel"
 	"tkestack.io/kvass/pkg/prom"
@@ -77,6 +80,13 @@ type scObs struct {
 	// GET /api/v1/shard/samples/?with_metrics_detail=true, read twice
 	Samples       []scSampObs
 	SamplesStable bool
+	// the static targets of every job in the file the injector wrote
+	Injected []scInjObs
+}
+
+type scInjObs struct {
+	Job    uint64
+	Hashes []uint64
 }
 
 type scSampObs struct {
@@ -151,12 +161,35 @@ type scWorld struct {
 	delivered map[uint64]bool
 	prom    int64
 	jobInfo map[string]*scrape.JobInfo
+	// the injector, wired as cmd/kvass/sidecar.go wires it: first update callback of the targets manager, reload callback
+	// of the configuration manager; a restart is a new process, so a new injector
+	inj       *sidecar.Injector
+	cfgHooked *prom.ConfigManager
+	starts    int
 }
 
 func (w *scWorld) start() error {
 	w.tm = sidecar.NewTargetsManager(w.dir, prometheus.NewRegistry(), quietLog)
 	w.delivered = nil
-	w.tm.AddUpdateCallbacks(func(ts map[string][]*target.Target) error {
+	w.inj = sidecar.NewInjector(filepath.Join(w.dir, "prometheus_injected.yml"),
+		sidecar.InjectConfigOptions{ProxyURL: "http://127.0.0.1:8008", PrometheusURL: "http://127.0.0.1:9090"}, prometheus.NewRegistry(), quietLog)
+	if w.cfgHooked != w.cfg {
+		w.cfgHooked = w.cfg
+		w.cfg.AddReloadCallbacks(func(c *prom.ConfigInfo) error { return w.inj.ApplyConfig(c) })
+	}
+	// with --config.file the configuration is loaded before the stored assignment; without it the assignment comes first
+	// and the configuration when the coordinator pushes it: both orders, alternating
+	w.starts++
+	configFirst := w.starts%2 == 1
+	if configFirst {
+		_ = w.inj.ApplyConfig(w.cfg.ConfigInfo())
+	}
+	defer func() {
+		if !configFirst {
+			_ = w.inj.ApplyConfig(w.cfg.ConfigInfo())
+		}
+	}()
+	w.tm.AddUpdateCallbacks(w.inj.UpdateTargets, func(ts map[string][]*target.Target) error {
 		if w.cbFail {
 			return fmt.Errorf("scripted callback failure")
 		}
@@ -271,7 +304,47 @@ func (w *scWorld) observe(ok bool) scObs {
 	}
 	ob.Samples = readSamples()
 	ob.SamplesStable = fmt.Sprint(readSamples()) == fmt.Sprint(ob.Samples)
+	ob.Injected = w.injected()
 	return ob
+}
+
+// injected reads the generated configuration file the way the shard's Prometheus would and lists, per job, the hashes
+// of its static targets (the injector ships the hash as a __param_ label)
+func (w *scWorld) injected() []scInjObs {
+	out := []scInjObs{}
+	b, err := ioutil.ReadFile(filepath.Join(w.dir, "prometheus_injected.yml"))
+	if err != nil {
+		return out
+	}
+	cfg, err := config.Load(string(b), false, kitlog.NewNopLogger())
+	if err != nil {
+		return []scInjObs{{Job: 999}} // a file Prometheus would reject: make it visible
+	}
+	for _, sc := range cfg.ScrapeConfigs {
+		o := scInjObs{}
+		if _, err := fmt.Sscanf(sc.JobName, "job%d", &o.Job); err != nil {
+			continue
+		}
+		for _, sd := range sc.ServiceDiscoveryConfigs {
+			st, ok := sd.(discovery.StaticConfig)
+			if !ok {
+				continue
+			}
+			for _, g := range st {
+				var h uint64
+				fmt.Sscanf(string(g.Labels["__param__hash"]), "%d", &h)
+				for range g.Targets {
+					o.Hashes = append(o.Hashes, h)
+				}
+			}
+		}
+		if len(o.Hashes) > 0 {
+			sort.Slice(o.Hashes, func(a, b int) bool { return o.Hashes[a] < o.Hashes[b] })
+			out = append(out, o)
+		}
+	}
+	sort.Slice(out, func(a, b int) bool { return out[a].Job < out[b].Job })
+	return out
 }
 
 func scReqBody(req []scJob) []byte {
@@ -382,8 +455,16 @@ func scObsTerm(o scObs) string {
 		sm = append(sm, fmt.Sprintf("{| sm_job := %s; sm_scraped := %s; sm_keep := (%s, %s); sm_drop := (%s, %s) |}",
 			cN(m.Job), cZ(m.Scraped), cZ(m.KeepS), cZ(m.KeepT), cZ(m.DropS), cZ(m.DropT)))
 	}
-	return fmt.Sprintf("{| so_status := %s; so_head := %s; so_proc := %s; so_idle := %s; so_ok := %s; so_samples := %s; so_samples_stable := %s |}",
-		cList(st), cZ(o.Head), cZ(o.Proc), idle, cBool(o.OK), cList(sm), cBool(o.SamplesStable))
+	var inj []string
+	for _, j := range o.Injected {
+		var hs []string
+		for _, h := range j.Hashes {
+			hs = append(hs, cN(h))
+		}
+		inj = append(inj, fmt.Sprintf("(%s, %s)", cN(j.Job), cList(hs)))
+	}
+	return fmt.Sprintf("{| so_status := %s; so_head := %s; so_proc := %s; so_idle := %s; so_ok := %s; so_samples := %s; so_samples_stable := %s; so_injected := %s |}",
+		cList(st), cZ(o.Head), cZ(o.Proc), idle, cBool(o.OK), cList(sm), cBool(o.SamplesStable), cList(inj))
 }
 
 func sidecarRun(in interface{}) (string, interface{}, map[string]int) {
@@ -395,6 +476,9 @@ func sidecarRun(in interface{}) (string, interface{}, map[string]int) {
 	defer os.RemoveAll(dir)
 	w := newScWorld(dir, c.Prom)
 	sidecar.VerifSetTimeNow(func() time.Time { return time.Unix(c.Now0, 0) })
+	if err := w.cfg.ReloadFromRaw([]byte(lpRaw)); err != nil { // a configuration with the three jobs, so that the injector writes them
+		panic(err)
+	}
 	if err := w.start(); err != nil {
 		panic(err)
 	}
